@@ -20,6 +20,7 @@ LEVEL_ASSUMPTIONS = [
     "model vlib/oracles/ibl.py written from the module documentation "
     "(validated on the documented Liu-Teng example at start-up)"]
 REQUIRED = {"model_comparisons": 1000, "history_dirty_dest": 500,
+            "pair_history_decodes": 20000, "pair_instances": 8,
             "model_down_and_left": 200, "model_earlier_bin_used": 50,
             "model_forced_rotation": 20}
 
@@ -27,9 +28,15 @@ REQUIRED = {"model_comparisons": 1000, "history_dirty_dest": 500,
 def plan(tier: str, seed: int):
     if tier == "quick":
         return [{"name": f"s{i}", "engine": "jit", "args": {"n": 200},
-                 "timeout": 900} for i in range(4)]
+                 "timeout": 900} for i in range(4)] + [
+            {"name": f"p{i}", "engine": "jit", "args": {
+                "mode": "pairs", "n": 6, "budget": 40000},
+             "timeout": 900} for i in range(4)]
     return [{"name": f"s{i}", "engine": "jit", "args": {"n": 1500},
-             "timeout": 3000} for i in range(16)]
+             "timeout": 3000} for i in range(12)] + [
+        {"name": f"p{i}", "engine": "jit", "args": {
+            "mode": "pairs", "n": 60, "budget": 400000},
+         "timeout": 3000} for i in range(12)]
 
 
 def _enc(inst, e):
@@ -137,7 +144,7 @@ def gen_steps(rng, desc, length):
     steps = []
     for _ in range(length):
         perm = wb.gen_perm(rng, desc, str(rng.choice(
-            list(wb.PERM_KINDS) + ["random"] * 6)))
+            list(wb.PERM_KINDS) + ["random"] * 6 + ["runs"] * 3)))
         steps.append((perm, str(rng.choice(MODES)),
                       int(rng.integers(0, 4) == 0),
                       int(rng.integers(0, 3) == 0)))
@@ -145,9 +152,12 @@ def gen_steps(rng, desc, length):
 
 
 def run_shard(ctx, args):
+    if args.get("mode") == "pairs":
+        return pairs_shard(ctx, args)
     rng = ctx.rng
     classes = ["tiny", "general", "forcedrot", "general", "itembin",
-               "smallgrid", "smallgrid", "dtype", "shipped", "unit"]
+               "smallgrid", "smallgrid", "dtype", "shipped", "unit", "twins",
+               "twins"]
     names = None
     for it in range(args["n"]):
         cls = classes[it % len(classes)]
@@ -184,6 +194,135 @@ def run_shard(ctx, args):
                                 "encoding": e, "history_len": len(steps),
                                 "first_steps": [[s[0][:12], s[1], s[2], s[3]]
                                                 for s in steps[:3]]})
+        except ValueError as ex:
+            if "does not fit" in str(ex) or "must be in" in str(ex):
+                ctx.count("generator_rejected_by_ctor")
+                continue
+            raise
+
+
+def gen_micro(rng) -> dict:
+    """<= 5 (sometimes 6) items: 1-2 item types too big for two copies to
+    share a bin, plus strips / blocks that leave room beside or above them."""
+    W = int(rng.integers(6, 13))
+    H = int(rng.integers(6, 13))
+    left = int(rng.choice([4, 5, 5, 5, 6]))
+    items = []
+    bw = int(rng.integers(W // 2 + 1, W))
+    bh = int(rng.integers(H // 2 + 1, H))
+    r = int(rng.integers(2, 4))
+    items.append([bw, bh, r])
+    left -= r
+    while left > 0:
+        kind = int(rng.integers(5))
+        if kind == 0:      # strip that fits beside the big item, full height
+            w, h = W - bw, H
+        elif kind == 1:    # strip that fits above the big item, full width
+            w, h = W, H - bh
+        elif kind == 2:    # a whole bin
+            w, h = W, H
+        elif kind == 3:    # another big type
+            w = int(rng.integers(W // 2 + 1, W + 1))
+            h = int(rng.integers(H // 2 + 1, H + 1))
+        else:
+            w = int(rng.integers(1, W + 1))
+            h = int(rng.integers(1, H + 1))
+        r = int(rng.integers(1, min(left, 2) + 1))
+        if [w, h] in [it[:2] for it in items] or (
+                [h, w] in [it[:2] for it in items] and h <= W and w <= H):
+            continue
+        items.append([w, h, r])
+        left -= r
+    order = [int(i) for i in rng.permutation(len(items))]
+    return {"name": wb._name(rng), "W": W, "H": H,
+            "items": [items[i] for i in order], "cls": "micro"}
+
+
+def _scratch_state(enc, y) -> bytes:
+    """Everything array-valued the encoder object holds (whatever it is
+    called) plus the destination: two histories that leave the same bytes
+    are the same history as far as a later decode can tell."""
+    parts = []
+    for k in sorted(vars(enc)):
+        v = vars(enc)[k]
+        if isinstance(v, np.ndarray) and k != "instance" and not hasattr(
+                v, "bin_width"):
+            parts.append(v.tobytes())
+    parts.append(np.asarray(y).tobytes())
+    return b"|".join(parts)
+
+
+def pair_histories(ctx, desc, e, budget):
+    """Every B after every distinguishable predecessor state: all signed
+    permutations A of a micro instance are decoded once, one representative
+    per distinct state they leave in (encoder, destination) is kept, and
+    every B is then decoded right after every representative."""
+    from moptipyapps.binpacking2d.packing import Packing
+    rng = ctx.rng
+    inst = wb.make_real(desc)
+    perms = list(wb.all_signed_perms(desc))
+    if len(perms) > 2000:
+        perms = [perms[int(i)] for i in rng.permutation(len(perms))[:2000]]
+        whole = False
+    else:
+        whole = True
+    enc = _enc(inst, e)
+    y = Packing(inst)
+    y.fill(0)
+    reps: dict[bytes, list[int]] = {}
+    want = {}
+    for p in perms:
+        if not compare(ctx, desc, inst, enc, e, p, y, [[p, "keep", 0, 0]]):
+            return
+        want[tuple(p)] = (np.array(y), y.n_bins)
+        reps.setdefault(_scratch_state(enc, y), p)
+    ctx.seen_max("pair_distinct_predecessor_states", len(reps))
+    states = list(reps.values())
+    done = 0
+    full = len(states) * len(perms) <= budget
+    order = rng.permutation(len(perms))
+    for bi in order:
+        b = perms[int(bi)]
+        xb = wb.x_array(b, inst)
+        ref, refk = want[tuple(b)]
+        for a in states:
+            if done >= budget:
+                break
+            enc.decode(wb.x_array(a, inst), y)
+            enc.decode(xb, y)
+            done += 1
+            ctx.count("pair_history_decodes")
+            if y.n_bins != refk or not np.array_equal(y, ref):
+                ctx.count("pair_history_differences")
+                steps = [(a, "keep", 0, 0), (b, "keep", 0, 0)]
+                if run_history(ctx, desc, e, steps):
+                    ctx.violation(
+                        f"decode-depends-on-history:enc{e}",
+                        f"enc{e}: decoding {b} right after {a} differs from "
+                        f"decoding it first (same encoder and destination), "
+                        f"but a replay of the pair did not differ",
+                        {"kind": "history", "desc": desc, "enc": e,
+                         "history": [list(s) for s in steps]})
+                return
+        if done >= budget:
+            break
+    ctx.count("pair_instances")
+    if full and whole:
+        ctx.count("pair_instances_all_pairs")
+        ctx.mark_exhaustive(
+            "micro instances: every signed permutation decoded after one "
+            "representative of every distinct (encoder arrays, destination) "
+            "state any signed permutation leaves behind")
+
+
+def pairs_shard(ctx, args):
+    rng = ctx.rng
+    for it in range(args["n"]):
+        desc = gen_micro(rng)
+        ctx.count("inst_cls[micro]")
+        try:
+            for e in (1, 2):
+                pair_histories(ctx, desc, e, args["budget"])
         except ValueError as ex:
             if "does not fit" in str(ex) or "must be in" in str(ex):
                 ctx.count("generator_rejected_by_ctor")
